@@ -27,6 +27,7 @@ type kRes struct {
 type kWorld struct {
 	version  int64
 	items    []*xItem // list data for delta checks (C02)
+	score    map[int64]int64 // data behind the cached (expensive) field Item.w
 	res      []*kRes
 	runs     int            // resolver executions of the live field
 	runsAfterClose int
@@ -86,6 +87,12 @@ func kSchema(w *kWorld) *Schema {
 	itemT := &Object{Name: "Item", Fields: map[string]*Field{}}
 	itemT.Fields["v"] = &Field{Type: intT, ParseArguments: parse, Resolve: func(ctx context.Context, source, args interface{}, sel *SelectionSet) (interface{}, error) {
 		return source.(*xItem).V, nil
+	}}
+	// w: an expensive field — the executor caches its computation per (field, source
+	// object, selection) with reactive.Cache; it depends on its own resource
+	itemT.Fields["w"] = &Field{Type: intT, ParseArguments: parse, Expensive: true, Resolve: func(ctx context.Context, source, args interface{}, sel *SelectionSet) (interface{}, error) {
+		register(ctx)
+		return w.score[source.(*xItem).ID], nil
 	}}
 	itemT.KeyField = &Field{Type: intT, ParseArguments: parse, Resolve: func(ctx context.Context, source, args interface{}, sel *SelectionSet) (interface{}, error) {
 		return source.(*xItem).ID, nil
